@@ -78,6 +78,7 @@ fn main() {
     let f: CaseFn = match args[1].as_str() {
         "tfb" => tfb::run_case,
         "tfb_threads" => tfb::run_threaded_case,
+        "tfb_race" => tfb::run_race_case,
         "bbi" => bbi::run_case,
         "readfile" => bbi::run_readfile,
         "refuse" => refuse::run_case,
